@@ -88,3 +88,14 @@ func VerifPutCertToken(m *Manager, name string, cert *tls.Certificate) {
 	}
 	m.certTokens[name] = cert
 }
+
+// VerifPutHTTPToken stores an http-01 challenge response in m.httpTokens only (the cache is left
+// alone, unlike putHTTPToken).
+func VerifPutHTTPToken(m *Manager, tokenPath string, val []byte) {
+	m.challengeMu.Lock()
+	defer m.challengeMu.Unlock()
+	if m.httpTokens == nil {
+		m.httpTokens = make(map[string][]byte)
+	}
+	m.httpTokens[tokenPath] = val
+}
